@@ -361,6 +361,11 @@ SetTopInst(s, n, i) ==
     IF ~(n \in IdsN(s)) \/ ~(i = None \/ i \in IdsI(s)) THEN Refuse(s)
     ELSE LET s1 == [ClearOldTop(s, n) EXCEPT !.nlTop[n] = i] IN
          Ok(IF i = None THEN s1 ELSE [s1 EXCEPT !.instTop[i] = TRUE])
+(* netlist.set_top_instance(<Instance>) - the form the EBLIF reader uses: the link is written, the is_top_instance *)
+(* flags are left alone (what the code does)                                                                      *)
+SetTopInstM(s, n, i) ==
+    IF ~(n \in IdsN(s)) \/ ~(i = None \/ i \in IdsI(s)) THEN Refuse(s)
+    ELSE Ok([s EXCEPT !.nlTop[n] = i])
 SetTopDef(s, n, d) ==
     IF ~(n \in IdsN(s)) \/ ~(d \in IdsD(s)) THEN Refuse(s)
     ELSE LET s1 == NewI(ClearOldTop(s, n), NoVal)
@@ -423,6 +428,7 @@ Apply(s, c) ==
       [] c.op = "reorder_pins" -> ReorderWirePins(s, c.w, c.seq)
       [] c.op = "set_ref"   -> SetReference(s, c.i, c.d)
       [] c.op = "set_top"   -> SetTopInst(s, c.n, c.i)
+      [] c.op = "set_top_m" -> SetTopInstM(s, c.n, c.i)
       [] c.op = "set_top_def" -> SetTopDef(s, c.n, c.d)
       [] c.op = "set_item"  -> SetItem(s, c.kind, c.x, c.key, c.val)
       [] c.op = "del_item"  -> DelItem(s, c.kind, c.x, c.key)
